@@ -54,7 +54,7 @@ def run(ctx):
         verdicts = list(ex.map(lambda kf: casejudge.judge(ctx, "ServerJudge" if kf[0] == "life" else "ServerSchedJudge", kf[1],
                                                           ("ServerJudge" if kf[0] == "life" else "ServerSchedJudge") + ".cfg"), files))
     # Real listeners run under the operating system's scheduler with a watchdog bound: a failing word is first
-    # re-executed alone - same word, same configuration, same client kinds - with a much longer bound; only what fails
+    # re-executed alone - same word, same configuration, same client kinds - with a much longer (40 s) bound; only what fails
     # again is a verdict (a loaded machine must never turn into an alarm).
     suspects, seen = [], set()
     for (kind, f), (fails, _) in zip(files, verdicts):
@@ -72,12 +72,12 @@ def run(ctx):
         wf, of = ctx.path("sw_confirm.json"), ctx.path("srv_confirm.json")
         json.dump(suspects + suspects, open(wf, "w"))
         env = pyenv()
-        env["VERIF_SRV_BOUND"] = "15"
+        env["VERIF_SRV_BOUND"] = "40"
         run_parallel([([PY, os.path.join(VERIF, "harness", "server_run.py"), "run", wf, of, str(ctx.seed * 8 + 7), ctx.dir], env)], 3000)
         confirmed = (of, casejudge.judge(ctx, "ServerJudge", of, "ServerJudge.cfg")[0])
         ctx.cov["confirmation_pass"] = {"suspect_words": len(suspects), "failing_again": len(confirmed[1])}
         if not confirmed[1]:
-            print("NOTE: %d life-cycle word(s) failed within the 4 s watchdog bound but not when re-executed alone with a 15 s bound: "
+            print("NOTE: %d life-cycle word(s) failed within the 4 s watchdog bound but not when re-executed alone with a 40 s bound: "
                   "attributed to machine load, no verdict" % len(suspects))
     for (kind, f), (fails, _) in list(zip(files, verdicts)) + ([(("life", confirmed[0]), (confirmed[1], None))] if confirmed else []):
         recs = json.load(open(f))
